@@ -383,7 +383,12 @@ def _n1_prologue(f: Func, res: RuleResult):
                 if not ok_shape:
                     res.bad(f, st, construct, "the reducing loop is not 'for j in range(start, len(arr))'")
                     continue
-                start, out = sym(it.args[0], env), env.get("out", "out")
+                # the accumulator is the first argument of the reducer call inside the loop
+                acc_name = next((c.args[0].id for c in ast.walk(st) if isinstance(c, ast.Call) and isinstance(c.func, ast.Name)
+                                 and c.func.id == params[0] and c.args and isinstance(c.args[0], ast.Name)), None)
+                if acc_name is None:
+                    raise AnalysisError("N1: accumulator of the reducing loop not found")
+                start, out = sym(it.args[0], env), env.get(acc_name, acc_name)
                 j = st.target.id
                 elem_ok = any(isinstance(n, ast.Assign) and isinstance(n.value, ast.Subscript)
                               and sym(n.value, {}) == f"{arr}[{j}]" for n in st.body) or \
